@@ -137,23 +137,65 @@ inductive Changes where
   | cons (c : Change) (cs : Changes)
 end
 
+/-! ### worlds that reject every write
+
+`ingest.ReadOnlyWorld` (what `ReadOnlyWorlds.FindOrCreateWorld` hands out when b6 runs with `--read-only`):
+`AddFeature`, `AddTag`, `RemoveTag` all return "World is read-only".  `ro = true` below.  The canary of
+`MergedChange.Apply` is `NewMutableOverlayWorld(w)` — a MUTABLE overlay over the read-only world — so the canary
+accepts what the real world then rejects: the real pass can fail although the canary pass succeeded. -/
+
+/-- `AddFeatures.Apply` on a world of the given kind -/
+def applyAddFeaturesR (ro : Bool) (w : World) (fs : List Feature) (seen : List FId) : Res :=
+  if ro then (match fs with
+    | [] => ⟨w, seen, true⟩
+    | _ :: _ => ⟨w, [], false⟩)      -- the first `AddFeature` fails; an empty collection is returned
+  else applyAddFeatures w fs seen
+
+/-- `AddTags.Apply` on a world of the given kind -/
+def applyAddTagsR (ro : Bool) (w : World) (ts : List (FId × String × String)) (acc : List FId) : Res :=
+  if ro then (match ts with
+    | [] => ⟨w, acc, true⟩
+    | _ :: _ => ⟨w, acc, false⟩)
+  else applyAddTags w ts acc
+
+/-- `RemoveTags.Apply` on a world of the given kind -/
+def applyRemoveTagsR (ro : Bool) (w : World) (ts : List (FId × String)) (acc : List FId) : Res :=
+  if ro then (match ts with
+    | [] => ⟨w, acc, true⟩
+    | _ :: _ => ⟨w, acc, false⟩)
+  else applyRemoveTags w ts acc
+
 mutual
-/-- `Change.Apply` -/
-def apply (w : World) : Change → Res
-  | .addFeatures fs => applyAddFeatures w fs []
-  | .addTags ts => applyAddTags w ts []
-  | .removeTags ts => applyRemoveTags w ts []
-  | .merged cs => if canaryOk w cs then mergedPass w cs [] else ⟨w, [], false⟩
-/-- first loop of `MergedChange.Apply`: every part applied to the canary overlay, in order -/
+/-- `Change.Apply` on a world that is read-only (`ro = true`) or mutable -/
+def apply (ro : Bool) (w : World) : Change → Res
+  | .addFeatures fs => applyAddFeaturesR ro w fs []
+  | .addTags ts => applyAddTagsR ro w ts []
+  | .removeTags ts => applyRemoveTagsR ro w ts []
+  | .merged cs => if canaryOk w cs then mergedPass ro w cs [] else ⟨w, [], false⟩
+/-- first loop of `MergedChange.Apply`: every part applied to the canary — a mutable overlay, whatever `w` is -/
 def canaryOk (w : World) : Changes → Bool
   | .nil => true
-  | .cons c cs => if (apply w c).ok then canaryOk (apply w c).world cs else false
-/-- second loop of `MergedChange.Apply`: the parts applied to the world, ID collections concatenated -/
-def mergedPass (w : World) : Changes → List FId → Res
+  | .cons c cs => if (apply false w c).ok then canaryOk (apply false w c).world cs else false
+/-- second loop of `MergedChange.Apply`: the parts applied to the REAL world, ID collections concatenated; a part
+that fails here although the canary accepted it ends the loop with the error "change partially applied" -/
+def mergedPass (ro : Bool) (w : World) : Changes → List FId → Res
   | .nil, acc => ⟨w, acc, true⟩
   | .cons c cs, acc =>
-    if (apply w c).ok then mergedPass (apply w c).world cs (acc ++ (apply w c).ids)
-    else ⟨(apply w c).world, acc, false⟩
+    if (apply ro w c).ok then mergedPass ro (apply ro w c).world cs (acc ++ (apply ro w c).ids)
+    else ⟨(apply ro w c).world, acc, false⟩
+end
+
+mutual
+/-- a variant of `MergedChange.Apply` whose second loop does NOT look at the error of a part ("the canary accepted
+every change, so they apply cleanly"): it goes on and returns success -/
+def applyUnchecked (ro : Bool) (w : World) : Change → Res
+  | .addFeatures fs => applyAddFeaturesR ro w fs []
+  | .addTags ts => applyAddTagsR ro w ts []
+  | .removeTags ts => applyRemoveTagsR ro w ts []
+  | .merged cs => if canaryOk w cs then mergedPassUnchecked ro w cs [] else ⟨w, [], false⟩
+def mergedPassUnchecked (ro : Bool) (w : World) : Changes → List FId → Res
+  | .nil, acc => ⟨w, acc, true⟩
+  | .cons c cs, acc => mergedPassUnchecked ro (applyUnchecked ro w c).world cs (acc ++ (applyUnchecked ro w c).ids)
 end
 
 /-! ## The evaluators' change branch -/
@@ -173,30 +215,30 @@ inductive Resp where
 
 /-- `service.Evaluate`: version gate, evaluation, then
 `if change, ok := v.(ingest.Change); ok { …; v, err = apply(change); …; if err != nil { return nil, err } }`. -/
-def grpcEvaluate (versionOk : Bool) (w : World) (e : EvalOut) : World × Resp :=
+def grpcEvaluate (versionOk : Bool) (ro : Bool) (w : World) (e : EvalOut) : World × Resp :=
   if !versionOk then (w, .error) else
   match e with
   | .error => (w, .error)
   | .plain => (w, .plain)
   | .change c =>
-    if (apply w c).ok then ((apply w c).world, .ids (apply w c).ids)
-    else ((apply w c).world, .error)
+    if (apply ro w c).ok then ((apply ro w c).world, .ids (apply ro w c).ids)
+    else ((apply ro w c).world, .error)
 
 /-- `Evaluator.EvaluateExpression` after the repair: the error of `change.Apply` is returned. -/
-def uiEvaluate (w : World) (e : EvalOut) : World × Resp :=
+def uiEvaluate (ro : Bool) (w : World) (e : EvalOut) : World × Resp :=
   match e with
   | .error => (w, .error)
   | .plain => (w, .plain)
   | .change c =>
-    if (apply w c).ok then ((apply w c).world, .ids (apply w c).ids)
-    else ((apply w c).world, .error)
+    if (apply ro w c).ok then ((apply ro w c).world, .ids (apply ro w c).ids)
+    else ((apply ro w c).world, .error)
 
 /-- `Evaluator.EvaluateExpression` as it was (snapshot ae9f79b):
 `modified, err = change.Apply(world); …; return &AppliedChange{Change: change, Modified: modified}, nil`. -/
-def uiEvaluateBeforeFix (w : World) (e : EvalOut) : World × Resp :=
+def uiEvaluateBeforeFix (ro : Bool) (w : World) (e : EvalOut) : World × Resp :=
   match e with
   | .error => (w, .error)
   | .plain => (w, .plain)
-  | .change c => ((apply w c).world, .ids (apply w c).ids)
+  | .change c => ((apply ro w c).world, .ids (apply ro w c).ids)
 
 end B6.Model.Service
